@@ -182,6 +182,8 @@ func c28Trees() []treeSpec {
 			a.add("b", newDir(r.fs)).add("c", newDir(r.fs))
 			a.add("e", newDir(r.fs))
 			r.add("d", newDir(r.fs))
+			r.add("a2", newDir(r.fs))
+			r.add("a-1", newDir(r.fs))
 		}},
 		{Name: "missing", rMagic: Ext4Magic, Unrestricted: true, build: func(k *kern, r *knode) {}},
 		{Name: "host", rMagic: Ext4Magic, build: func(k *kern, r *knode) {
@@ -349,6 +351,47 @@ func c28Profiles(shapes []espec, maxEntries int) []pspec {
 	}
 	rec(0, nil)
 	return res
+}
+
+// Sibling sub-family: directories next to c28SibBase whose NAME extends the base's name, by a character
+// sorting after '/' ("a2": /r/a/ < /r/a/b/ < /r/a2/) and by one sorting before it ("a-1": /r/a-1/ < /r/a/).
+// They are not beneath the base, but a string-prefix test without the separating slash takes them for
+// children. To keep the space near its size they do not join the full directory alphabet: a sibling
+// entry (2 shapes) appears alone or together with one entry (every shape of the menu) at the base.
+const c28SibBase = "/r/a"
+
+var c28SibDirs = []string{"/r/a2", "/r/a-1"}
+
+func c28SibShapes() []espec {
+	return []espec{{O: "layout", K: "rbind"}, {O: "layout", K: "tmpfs"}}
+}
+
+// c28SiblingProfiles: {sibling} and, if maxEntries allows, {base entry, sibling} for every sibling
+// directory, sibling shape and base shape of the menu.
+func c28SiblingProfiles(shapes []espec, maxEntries int) []pspec {
+	var res []pspec
+	for _, d := range c28SibDirs {
+		for _, ss := range c28SibShapes() {
+			s := ss
+			s.D = d
+			if maxEntries >= 1 {
+				res = append(res, pspec{s})
+			}
+			if maxEntries >= 2 {
+				for _, bs := range shapes {
+					b := bs
+					b.D = c28SibBase
+					res = append(res, pspec{b, s})
+				}
+			}
+		}
+	}
+	return res
+}
+
+// c28Menu: the profiles of one level = all profiles over the directory alphabet + the sibling sub-family
+func c28Menu(shapes []espec, maxEntries int) []pspec {
+	return append(c28Profiles(shapes, maxEntries), c28SiblingProfiles(shapes, maxEntries)...)
 }
 
 // ---------------------------------------------------------------------------------------------
@@ -1055,7 +1098,7 @@ func TestVerifC28(t *testing.T) {
 	debug.SetGCPercent(400) // many short-lived kernels and profiles; the heap stays small
 	r.Assume("the kernel is simulated (verif_c28_kern_test.go): VFS + mount tree with bind/rbind/tmpfs/remount-ro/umount(detach), kernel error precedence, no mount propagation; real Change.Perform runs on it",
 		"neededChanges looks at the real file system for target existence: the visible simulated tree is projected to a scratch directory before every update",
-		"alphabets: 5 nested directories, kinds x origins menu, 4 pre-existing trees; codec atoms cover space, tab, newline, CR, backslash, literal octal escapes, '#', non-ASCII and NBSP")
+		"alphabets: 5 nested directories + 2 siblings of /r/a whose names extend its name (a2, a-1; sub-family: alone or with one entry at /r/a), kinds x origins menu, 4 pre-existing trees; codec atoms cover space, tab, newline, CR, backslash, literal octal escapes, '#', non-ASCII and NBSP")
 	shard, nshards := 0, 1
 	if s := os.Getenv("VERIF_SHARD"); s != "" {
 		fmt.Sscanf(s, "%d/%d", &shard, &nshards)
@@ -1091,13 +1134,13 @@ func TestVerifC28(t *testing.T) {
 	if r.Quick() {
 		trees = []string{"ro", "all", "missing"}
 		q := c28Shapes(false)
-		levels = [][]pspec{c28Profiles(q, 2), c28Profiles(q, 2), c28Profiles(q, 1)}
-		boundsText = "reduced menu (8 shapes per directory); |P1|<=2, |P2|<=2, |P3|<=1 after |P2|<=1"
+		levels = [][]pspec{c28Menu(q, 2), c28Menu(q, 2), c28Menu(q, 1)}
+		boundsText = "reduced menu (8 shapes per directory); |P1|<=2, |P2|<=2, |P3|<=1 after |P2|<=1; + sibling sub-family at every level"
 	} else {
 		trees = []string{"ro", "all", "missing", "host"}
 		q, f := c28Shapes(false), c28Shapes(true)
-		levels = [][]pspec{c28Profiles(f, 2), unionProfiles(c28Profiles(q, 2), c28Profiles(f, 1)), c28Profiles(f, 1)}
-		boundsText = "full menu (kinds x origins + alternative source = 19 shapes per directory); |P1|<=2 full menu, P2 in (reduced menu |P2|<=2) + (full menu |P2|<=1), |P3|<=1 full menu after |P2|<=1"
+		levels = [][]pspec{c28Menu(f, 2), unionProfiles(c28Menu(q, 2), c28Menu(f, 1)), c28Menu(f, 1)}
+		boundsText = "full menu (kinds x origins + alternative source = 19 shapes per directory); |P1|<=2 full menu, P2 in (reduced menu |P2|<=2) + (full menu |P2|<=1), |P3|<=1 full menu after |P2|<=1; + sibling sub-family at every level"
 	}
 	if os.Getenv("VERIF_C28_PROBE") != "" {
 		c28Probe(levels)
@@ -1147,7 +1190,7 @@ func TestVerifC28(t *testing.T) {
 		os.Remove(s2file)
 		os.RemoveAll(workDir())
 		r.Add("states", int64(r.DistinctCount("state_level2")+r.DistinctCount("state_level3")))
-		r.Info("bounds", map[string]interface{}{"dirs": c28Dirs, "menu": boundsText, "trees": trees,
+		r.Info("bounds", map[string]interface{}{"dirs": c28Dirs, "sibling_dirs": c28SibDirs, "sibling_base": c28SibBase, "menu": boundsText, "trees": trees,
 			"profiles_level1": len(levels[0]), "profiles_level2": len(levels[1]), "profiles_level3": len(levels[2]), "history_length": 3})
 		r.Finish("histories: breadth-first over (tree, desired profile 1, 2, 3) with successors deduplicated on the exact state (recorded profile text + canonical simulated kernel state); every profile of the level's menu is applied in every distinct state of the previous level. distinct_nontrivial = transitions from distinct states whose plan both removes/keeps something and mounts something. codec: every entry with two fields ranging over all atom strings up to the length bound (others plain) and all four fields over single atoms, alone and in two-entry profiles")
 	}
